@@ -97,7 +97,7 @@ const char *flatcc_verify_error_string(int err)
  */
 #define verify_runtime(cond, reason) verify(cond, reason)
 
-#define check_result(x) if (x) { return (x); }
+#define check_result(x) do { int check_result_ret = (x); if (check_result_ret) { return check_result_ret; } } while (0)
 
 #define check_field(td, id, required, base) do {                            \
     int ret = get_offset_field(td, id, required, &base);                    \
